@@ -24,7 +24,7 @@ F_BUBBLE = 'C03-bubble-omitted-id'
 
 def sizes(ctx):
     if ctx.quick:
-        return dict(core=900, excon=300, flags=200)
+        return dict(core=700, excon=240, flags=120)
     return dict(core=18000, excon=5000, flags=4000)
 
 def gen_cases(ctx):
@@ -48,6 +48,10 @@ def gen_cases(ctx):
         c = CG.gen_case(rng, coding_p=0.85)
         sect, w2f = rng.choice([(True, False), (False, True), (True, True)])
         c['runs'] = [CG.gen_run(rng, rule='trypsin', exc_on=False, sect=sect, w2f=w2f)]; c['stream'] = 'flags'
+        if w2f and CK.max_w_run(c, c['runs'][0], c['runs'][0]['max_len']) > 6:
+            c['runs'][0].update(w2f=False, extra=[e for e in c['runs'][0]['extra'] if e != '--w2f-reassignment'])   # 2^w images: keep w <= 6
+            if not c['runs'][0]['sect']:
+                c['runs'][0].update(sect=True, extra=['--selenocysteine-termination'])
         cases.append(c)
     return cases
 
@@ -302,9 +306,7 @@ def run(ctx):
                 seen.add(k); uniq.append(v)
         violations = uniq
     cases = gen_cases(ctx)
-    B = 1500
-    for i in range(0, len(cases), B):
-        judge(CK.run_batch(ctx, cases[i:i + B], want_may=False, tag='c03'), violations, stats)
+    stream_wall = CK.run_streams(ctx, cases, judge, violations, stats, want_may=False, tag='c03')
     keep, cnt = [], collections.Counter()
     for v in violations:
         if v.get('finding'):
@@ -318,7 +320,7 @@ def run(ctx):
                 rule='one evaluation = one (peptide, header entry) pair checked with the proved decider witness_ok; '
                      'non-trivial = number of runs whose FASTA has at least one entry',
                 samples=samples, distribution=CK.dist_of(cases), stats=dict(stats),
-                known_finding_counts=dict(cnt), engine_tied_by='correspondence', violations=keep,
+                known_finding_counts=dict(cnt), engine_tied_by='correspondence', stream_wall_s=stream_wall, violations=keep,
                 assumptions=['records are SNV / MNV / INDEL on linear transcripts; fusion / circRNA backbones and SECT / W2F identifiers are not generated (property partial for them)',
                              'the peptide table\'s header column is not read (the FASTA is assembled from it by the tool itself)'],
                 trusted_base=['glue coq/Extract/Api_Spec.v', 'header parser harness/lib/cvgen.py:parse_header',
